@@ -1,0 +1,108 @@
+//! Scheduling points for deterministic-simulation checks (feature `verif`, off
+//! by default; nothing here is compiled otherwise).
+//!
+//! The atomics stay `std` atomics. Each operation is preceded by a call to a
+//! function the verification harness links in, which may switch to another
+//! logical thread there, so a controlled scheduler explores the interleavings
+//! of these operations.
+
+use std::sync::atomic::Ordering;
+
+unsafe extern "Rust" {
+    safe fn __compio_verif_point(site: u32);
+    safe fn __compio_verif_yield();
+}
+
+#[inline(always)]
+pub(crate) fn point(site: u32) {
+    __compio_verif_point(site)
+}
+
+#[repr(transparent)]
+pub(crate) struct AtomicUsize(std::sync::atomic::AtomicUsize);
+
+impl AtomicUsize {
+    pub(crate) fn new(v: usize) -> Self {
+        Self(std::sync::atomic::AtomicUsize::new(v))
+    }
+
+    pub(crate) fn load(&self, o: Ordering) -> usize {
+        point(1);
+        self.0.load(o)
+    }
+
+    pub(crate) fn fetch_or(&self, v: usize, o: Ordering) -> usize {
+        point(2);
+        self.0.fetch_or(v, o)
+    }
+
+    pub(crate) fn fetch_and(&self, v: usize, o: Ordering) -> usize {
+        point(3);
+        self.0.fetch_and(v, o)
+    }
+
+    pub(crate) fn fetch_add(&self, v: usize, o: Ordering) -> usize {
+        point(4);
+        self.0.fetch_add(v, o)
+    }
+
+    pub(crate) fn fetch_sub(&self, v: usize, o: Ordering) -> usize {
+        point(5);
+        self.0.fetch_sub(v, o)
+    }
+}
+
+#[repr(transparent)]
+pub(crate) struct AtomicPtr<T>(std::sync::atomic::AtomicPtr<T>);
+
+impl<T> AtomicPtr<T> {
+    pub(crate) fn new(p: *mut T) -> Self {
+        Self(std::sync::atomic::AtomicPtr::new(p))
+    }
+
+    pub(crate) fn load(&self, o: Ordering) -> *mut T {
+        point(6);
+        self.0.load(o)
+    }
+
+    pub(crate) fn store(&self, p: *mut T, o: Ordering) {
+        point(7);
+        self.0.store(p, o)
+    }
+}
+
+pub(crate) mod hint {
+    /// A spin loop must let the thread it waits for run.
+    pub(crate) fn spin_loop() {
+        super::__compio_verif_yield()
+    }
+}
+
+pub(crate) fn yield_now() {
+    __compio_verif_yield()
+}
+
+#[repr(transparent)]
+pub(crate) struct UnsafeCell<T>(std::cell::UnsafeCell<T>);
+
+impl<T> UnsafeCell<T> {
+    pub(crate) fn new(value: T) -> Self {
+        Self(std::cell::UnsafeCell::new(value))
+    }
+
+    #[inline(always)]
+    pub(crate) fn with_mut<F, R>(&self, f: F) -> R
+    where
+        F: FnOnce(*mut T) -> R,
+    {
+        f(self.0.get())
+    }
+
+    #[inline(always)]
+    pub(crate) fn with<F, R>(&self, f: F) -> R
+    where
+        F: FnOnce(*const T) -> R,
+    {
+        f(self.0.get())
+    }
+}
